@@ -387,7 +387,7 @@ Proof.
       destruct (first_bad_arg (m_arg s) (limit (m_checked s) shs) (limit (m_checked s) tys) 0) as [j|] eqn:FB.
       * inversion H; subst. apply first_bad_lt in FB. right. exists j. split; [reflexivity|].
         assert (length (limit (m_checked s) shs) <= length shs)
-          by (unfold limit; destruct (m_checked s); [apply firstn_le_length|lia]).
+          by (unfold limit; destruct (m_checked s); [rewrite firstn_length; lia|lia]).
         lia.
       * destruct (Nat.ltb (length tys) (m_min s)); [inversion H; auto|].
         destruct (m_max s) as [mx|]; [|discriminate].
